@@ -31,6 +31,9 @@ func StdUniverse() *Universe {
 		u.add(&Decl{Pkg: pkg, Name: "Iface", Under: IfaceM("M()")})
 		u.add(&Decl{Pkg: pkg, Name: "G", TParams: 1, Under: St(F("V", B("T0")))})
 	}
+	// key enum whose members have different values on both sides (a converted key prints differently from its source)
+	u.add(&Decl{Pkg: "in", Name: "KE", Under: B("int"), Consts: []Const{{"KA", "1"}, {"KB", "2"}}})
+	u.add(&Decl{Pkg: "out", Name: "KE", Under: B("int"), Consts: []Const{{"KA", "11"}, {"KB", "12"}}})
 	return u
 }
 
